@@ -167,7 +167,8 @@ func vCfgInts(key string) []int {
 		return nil
 	}
 	var r []int
-	for _, e := range v.([]interface{}) {
+	l, _ := v.([]interface{})
+	for _, e := range l {
 		r = append(r, int(e.(float64)))
 	}
 	return r
